@@ -9,7 +9,7 @@ RULE = ('class = (hash, |K| class around 0/1/digest/block/2*block/3*block, |M| c
         'where hashlib has the hash, RFC 2104 formula over the own reference hash otherwise (MD4, SHA-0, BLAKE-n) and as cross-check')
 ASSUMPTIONS = ['stdlib hmac/hashlib', 'own MD/SHA and BLAKE references (self-tested)']
 ANCHORS = [('hmac.py', 'HMAC.setkey'), ('hmac.py', 'HMAC.__call__'), ('hmac.py', 'HMAC.__init__')]
-REQUIRED = ['samekey:hmac==rfc2104', 'siblings:hmac==rfc2104', 'hmac==rfc2104', 'hmac==stdlib', 'setkey-replaces-key', 'mac-length']
+REQUIRED = ['used-hash:hmac==rfc2104', 'samekey:hmac==rfc2104', 'siblings:hmac==rfc2104', 'hmac==rfc2104', 'hmac==stdlib', 'setkey-replaces-key', 'mac-length']
 NSHARDS = 14
 SAN = {'quick': (2, 30), 'thorough': (2, 30)}
 HASHES = c01.ALGS + ['blake224', 'blake256', 'blake384', 'blake512']
@@ -49,6 +49,9 @@ def cases(tier, rng):
     for j in range(6 if tier == 'quick' else 60):
         yield {'k': 'samekey', 'h': 'all', 'j': j}
     for name in HASHES:
+        for j in range(2 if tier == 'quick' else 10):
+            yield {'k': 'used-hash', 'h': name, 'j': j}
+    for name in HASHES:
         B, D = info(name)
         mls = [0, 1, B - 1, B, B + 3, B - 9, B - 17, 2 * B - 9, B - 8] if tier == 'quick' else [0, 1, 7, D, B - D - 1, B - 1, B, B + 1, 2 * B, 3 * B + 5]
         for kl in keylens(B, D) + ([2, B - D, 5 * B] if tier == 'thorough' else []):
@@ -78,6 +81,21 @@ def run(case, ctx, rng):
         return
     name = case['h']
     B, D = info(name)
+    if case['k'] == 'used-hash':
+        # the hash object handed to HMAC has a past: other messages, a bit length, a salt (BLAKE), a partial update
+        h = make(name)
+        ctx.cls((name, 'used-hash', case['j'] % 2))
+        call(h, rng.randbytes(70))
+        call(h, rng.randbytes(9), bitlen=13) if not name.startswith('blake') else call(h, rng.randbytes(9), rng.getrandbits(64), 13)
+        if case['j'] % 2:
+            call(lambda: (h.initstate(), h.update(bytes(B))))
+        K = rng.randbytes(rng.choice([0, 7, B + 5])); M = rng.randbytes(rng.choice([0, 33, B]))
+        mac = call(HMAC, h, K)
+        ctx.eq('used-hash:hmac==rfc2104', mac if is_exc(mac) else call(mac, M), ref(name, K, M), h=name, K=K, M=M)
+        if not is_exc(mac):
+            call(h, b'interleaved direct use of the hash object')
+            ctx.eq('used-hash:hmac==rfc2104', call(mac, M), ref(name, K, M), h=name, K=K, M=M, second=True)
+        return
     if case['k'] == 'mac':
         K = pattern(rng, case['kl'], case['pat']); M = pattern(rng, case['ml'], 'rand')
         ctx.cls((name, kcls(case['kl'], B, D), case['ml']))
